@@ -615,6 +615,9 @@ Proof.
   - destruct (prop_wf p); [|exact I]. eapply Inv1_core; [apply recv_proposal_core|exact I].
   - now apply add_block_inv.
   - destruct (negb _); [exact I|]. destruct (pparts s); [now apply Inv1_panic|exact I].
+  - eapply Inv1_core; [|exact I]. unfold add_bad_block.
+    destruct (negb _); [apply core_eq_refl|]. destruct (pparts s) as [ps|]; [|apply core_eq_refl].
+    destruct (negb _); [apply core_eq_refl|]. destruct (ps_complete s ps); [apply core_eq_refl|]. repeat split.
   - destruct (bid_wf _); [now apply add_vote_inv|exact I].
   - destruct (existsb _ _) eqn:E; [|exact I].
     apply existsb_exists in E. destruct E as (ti & Hin & Eq). apply tinfo_eqb_eq in Eq. subst ti.
